@@ -6,6 +6,8 @@ import (
 	"github.com/mycoria/mycoria/frame"
 	"github.com/mycoria/mycoria/state"
 	"strings"
+	"sync/atomic"
+	"time"
 
 	"github.com/mycoria/mycoria/m"
 )
@@ -275,6 +277,74 @@ func stripChan(o string, _ bool) string {
 	return strings.Join(parts[:5], ",")
 }
 
+// c14ConcurrentSenders: two tun workers of one router have packets for the same destination that
+// has no keys yet, at the same moment.  The first one is held inside the link while its request
+// goes out; the second must not start a hello of its own (one hello in flight per destination).
+func c14ConcurrentSenders(c *Ctx) error {
+	for r, n := 0, c.Pick(3, 10); r < n; r++ {
+		w := newRWorld()
+		X, err := w.addNode("X", relayStore, nil)
+		if err != nil {
+			return err
+		}
+		Y, err := w.addNode("Y", relayStore, nil)
+		if err != nil {
+			return err
+		}
+		lxy, _, err := w.connect(X, Y, 11, 12)
+		if err != nil {
+			return err
+		}
+		arrived := make(chan struct{}, 1)
+		release := make(chan struct{})
+		var first atomic.Bool
+		first.Store(true)
+		lxy.park = func() {
+			if first.CompareAndSwap(true, false) {
+				arrived <- struct{}{}
+				select {
+				case <-release:
+				case <-time.After(2 * time.Second):
+				}
+			}
+		}
+		errs := make(chan error, 2)
+		go func() { _, e := X.ro.HelloPing.Send(Y.id.IP); errs <- e }()
+		select {
+		case <-arrived:
+		case <-time.After(2 * time.Second):
+			return fmt.Errorf("c14: the first hello never reached the link")
+		}
+		done2 := make(chan struct{})
+		go func() { _, e := X.ro.HelloPing.Send(Y.id.IP); errs <- e; close(done2) }()
+		select {
+		case <-done2:
+		case <-time.After(150 * time.Millisecond):
+		}
+		close(release)
+		<-errs
+		<-errs
+		lxy.park = nil
+		c.Eval()
+		c.Count("concurrent-senders")
+		hlinkQueueMu.Lock()
+		reqs := 0
+		for _, q := range w.queue {
+			fi := parseFrameInfo(q.data)
+			if fi.ok && fi.src == X.id.IP && fi.dst == Y.id.IP {
+				reqs++
+			}
+		}
+		hlinkQueueMu.Unlock()
+		c.NonTrivial(fmt.Sprintf("concurrent-senders/%d", reqs))
+		if reqs != 1 {
+			c.Violate(fmt.Sprintf("two workers of one router started a key setup for the same destination at the same moment: %d hello requests went out (one hello may be in flight per destination)", reqs), "kx-two-hellos-in-flight", map[string]any{"requests": reqs, "round": r})
+			break
+		}
+	}
+	return nil
+}
+
 func runC14(c *Ctx) error {
 	c.Res.Rule = "two real routers joined by a real link object run seeded-random schedules of: setup started by either router through the tun path's trigger (both at once included), any in-flight setup frame delivered (older frames of that sender are then delivered too and must have no effect) or lost, the \"no encryption keys\" error, hello states expiring (in one family of schedules only when nothing is in flight, in the other at any time) and retries; both address orderings arise from fresh identities. " +
 		"After every event the observation (established x2, keys agree as the real key bytes, hello state x2, frames in flight x2) is compared with the model; at every quiescent point the property is checked on the real key material. The model's refutation witness (D19) is replayed on real routers. non-trivial/distinct = distinct (schedule family, final observation)"
@@ -409,5 +479,5 @@ func runC14(c *Ctx) error {
 		{kind: "expire", x: true}, {kind: "deliver", x: false, i: 0}, {kind: "drop", x: true, i: 0}}, 7, "d19-witness"); err != nil {
 		return err
 	}
-	return nil
+	return c14ConcurrentSenders(c)
 }
